@@ -163,6 +163,9 @@ class ParProp(props.BaseProp):
                          "multi_source 1 %d %d %s" % (int(neg.chance(1, 3)), int(neg.chance(2, 3)),
                                                       " ".join(map(str, srcs))),
                          "multi_source 1 0 1 %d" % neg.below(n),
+                         # two different failures at once (a search that may hit ContradictoryPaths, then an absent
+                         # name): the error reported must not depend on the pool size
+                         "multi_source 1 1 1 %s %d" % (" ".join(str(neg.below(n)) for _ in range(3)), n + 5),
                          "involving 1 %d" % neg.below(n)]
         calls = []
         wflag = lambda: int(weighted and r.chance(3, 4))  # noqa: E731
